@@ -232,7 +232,7 @@ def draw_sequence(rng, maxlen):
         if step == 'mark_heads_by_rules':
             params = {'mark_heads_preset': rng.choice(['negra', 'ptb'])}
         elif step == 'punctuation_symetrify' and rng.random() < 0.4:
-            params = {'relc': 'PRELS'}
+            params = {'relc': rng.choice(['PRELS', 'PRELSAT'])}
         elif step == 'binarize' and rng.random() < 0.4:
             params = {'bare_bin_labels': True}
         seq.append([step, params])
@@ -282,7 +282,8 @@ def run_case(ctx, case, rng):
 
 def make_tree(rng):
     dens = rng.choice([0.0, 0.0, 0.15, 0.4, 0.8, 1.0])
-    pools = gen.Pools(p_punct=dens, pos=gen.POS + ['PRELS', 'PRELSAT'],
+    pools = gen.Pools(p_punct=dens, pos=gen.POS + ['PRELS', 'PRELSAT', 'AT',
+                                                   'PR'],
                       edges=['HD', 'NK', 'SB', 'OA', '--', '--'])
     n = rng.choice([1, 2, 3, 4, 5, 7, 10]) if rng.random() < 0.7 \
         else rng.randint(1, 25)
@@ -294,6 +295,11 @@ def make_tree(rng):
                     p_root_unary=rng.choice([0, 0, 0.4]))
     if rng.random() < 0.4:
         gen.uproot(rng, spec, 0.3, only_tokens=rng.random() < 0.6)
+    # no '+' in labels (collapsing concatenates with '+'), no '@' first
+    gen.spice(rng, spec, ['cat-keyword', 'cat-apostrophe', 'cat-digit-first',
+                          'pos-apostrophe', 'word-keyword', 'word-unicode',
+                          'word-typographic-punct', 'word-unispace'],
+              root_labels=['TOP', 'ROOT', 'S'])
     return spec
 
 
